@@ -28,7 +28,7 @@ RULE = (
 COMPONENTS_REAL = ["pdfminer.pdfparser.PDFParser.do_keyword (stream branch)", "pdfminer.pdftypes.PDFStream.get_filters/decode", "pdfminer.lzw / ascii85 / runlength / zlib", "pdfminer.utils.apply_png_predictor / apply_tiff_predictor", "pdfminer.pdfdocument.getobj"]
 COMPONENTS_STUB = ["file object: io.BytesIO over SimWriter output", "BUFSIZ chunk seam", "eviction wrapper", "encoders: sim.encoders (independent)"]
 ASSUMPTIONS = ["supported predictor geometry: PNG bits 8 or 1, TIFF bits 8; colours 1..4; columns 1..40", "LZW with default EarlyChange=1"]
-PROBES = ["indirect Length", "indirect Length after stream", "indirect Filter", "indirect DecodeParms", "payload contains endstream", "stream EOL crlf", "lzw beyond 9 bits", "lzw table reset", "png predictor", "png predictor colours>1", "png predictor 1-bit", "tiff predictor", "chain length 3", "abbreviated filter name", "boundary placed at stream keyword", "eviction happened"]
+PROBES = ["payload of tens of kilobytes", "indirect Length", "indirect Length after stream", "indirect Filter", "indirect DecodeParms", "payload contains endstream", "stream EOL crlf", "lzw beyond 9 bits", "lzw table reset", "png predictor", "png predictor colours>1", "png predictor 1-bit", "tiff predictor", "chain length 3", "abbreviated filter name", "boundary placed at stream keyword", "eviction happened"]
 TIERS = {
     "quick": {"batches": 16, "runs": 1500, "budget_s": 45},
     "thorough": {"batches": 128, "runs": 3000, "budget_s": 900},
@@ -90,6 +90,17 @@ def gen_payload(t, ctx):
         data = bytes(out)
     else:
         data = bytes(t.pick(b"\x00\xff\r\n ", "pl.b") for _ in range(min(n, 300)))
+    if t.coin(1, 100, "pl.huge"):
+        # tens of kilobytes with runs of zeros at varying alignments (ASCII85 'z' groups, long LZW / RunLength runs):
+        # beyond the sizes at which a decoder may switch to working in slices
+        blocks = []
+        x = t.draw(1 << 16, "pl.hugeseed") or 1
+        for _ in range(t.pick([40, 90, 200], "pl.hugeblocks")):
+            x = (x * 1103515245 + 12345) & 0x7FFFFFFF
+            blocks.append(bytes(((x >> s) & 0xFF) for s in (3, 11, 19)) * ((x >> 5) % 90 + 1))
+            blocks.append(bytes(4 * ((x >> 9) % 60) + (x >> 13) % 4))
+        data = data + b"".join(blocks)
+        ctx.probe("payload of tens of kilobytes")
     return data, adversarial
 
 
@@ -97,7 +108,7 @@ def gen_predictor(t, ctx):
     """-> (params dict, encode function, row length) or None"""
     if not t.coin(45, 100, "pred.use"):
         return None
-    colors = t.pick([1, 1, 2, 3, 4], "pred.colors")
+    colors = t.pick([1, 1, 2, 3, 4, 4, 8, 16, 17, 32], "pred.colors")  # (many components: DeviceN; with 1-bit samples a pixel still spans several bytes)
     columns = t.pick([1, 2, 3, 5, 8, 9, 16, 17, 40], "pred.columns")
     if t.coin(30, 100, "pred.tiff"):
         ctx.probe("tiff predictor")
